@@ -61,8 +61,36 @@ func checkC08(c *Ctx) {
 		tips := paramObj(info, fi.Decl, 2)
 		// GF counting sites: `X++` or append(...) guarded by a condition that mentions tips
 		n := 0
+		// the function itself, and the unexported helpers it hands the tips option to (the loops
+		// over the branches may have been extracted): (body, the option as seen there)
+		type cunit struct {
+			body *ast.BlockStmt
+			tips types.Object
+		}
+		units := []cunit{{fi.Decl.Body, tips}}
+		for _, call := range callsIn(fi.Decl.Body, true) {
+			g := calleeOf(info, call)
+			gi := c.FuncOfObj(g)
+			if g == nil || gi == nil || gi.Decl.Body == nil || g.Exported() || g.Pkg() != fi.Obj.Pkg() {
+				continue
+			}
+			for i, a := range call.Args {
+				if identObj(info, a) == tips {
+					if p := paramObj(info, gi.Decl, i); p != nil {
+						units = append(units, cunit{gi.Decl.Body, p})
+					}
+				}
+			}
+		}
+		var curBody *ast.BlockStmt
 		countSite := func(nd ast.Node, what string) {
-			conds, okc := c.pathConds(info, fi.Decl.Body, nd, true)
+			body, tips := curBody, tips
+			for _, u := range units {
+				if u.body == curBody {
+					tips = u.tips
+				}
+			}
+			conds, okc := c.pathConds(info, body, nd, true)
 			if !okc {
 				return
 			}
@@ -101,23 +129,31 @@ func checkC08(c *Ctx) {
 				c.Violation("GF", key, nd.Pos(), "branch counted under "+code.String()+"; property: optionally counting tip branches, i.e. "+spec.String()+" ("+wit+")").Clause = "optionally counting tip branches"
 			}
 		}
-		ast.Inspect(fi.Decl.Body, func(nd ast.Node) bool {
-			switch x := nd.(type) {
-			case *ast.IncDecStmt:
-				if x.Tok == token.INC {
-					countSite(x, types.ExprString(x.X))
-				}
-			case *ast.AssignStmt:
-				if len(x.Rhs) == 1 {
-					if call, ok := unparen(x.Rhs[0]).(*ast.CallExpr); ok {
-						if id, ok := call.Fun.(*ast.Ident); ok && id.Name == "append" {
-							countSite(x, types.ExprString(x.Lhs[0]))
+		seenBody := map[*ast.BlockStmt]bool{}
+		for _, u := range units {
+			if seenBody[u.body] {
+				continue
+			}
+			seenBody[u.body] = true
+			curBody = u.body
+			ast.Inspect(u.body, func(nd ast.Node) bool {
+				switch x := nd.(type) {
+				case *ast.IncDecStmt:
+					if x.Tok == token.INC {
+						countSite(x, types.ExprString(x.X))
+					}
+				case *ast.AssignStmt:
+					if len(x.Rhs) == 1 {
+						if call, ok := unparen(x.Rhs[0]).(*ast.CallExpr); ok {
+							if id, ok := call.Fun.(*ast.Ident); ok && id.Name == "append" {
+								countSite(x, types.ExprString(x.Lhs[0]))
+							}
 						}
 					}
 				}
-			}
-			return true
-		})
+				return true
+			})
+		}
 		if n == 0 {
 			c.Undecided("GF", "tree."+name+"/count-guard", fi.Decl.Pos(), "no counting site guarded by the tips option found")
 		}
@@ -157,6 +193,11 @@ func checkC08(c *Ctx) {
 		}
 	}
 	c.Floor("SIDES", 2)
+	c.Decides("ARGSWAP: the compare command hands its two boolean options (count tip branches / identical-only) to Compare and CompareWeighted in the positions of the parameters they are named after")
+	c.argSwapFuncs("ARGSWAP", c.funcsInFiles("cmd/comparetrees.go", "cmd/compareedges.go", "cmd/compare.go"), func(fn *types.Func) bool {
+		return isRepoFunc(fn, "tree", "", "Compare") || isRepoFunc(fn, "tree", "", "CompareWeighted")
+	}, "optionally counting tip branches")
+	c.Floor("ARGSWAP", 1)
 	// CommonEdges (pairwise variant)
 	if fi := c.Func("tree", "", "CommonEdges"); fi != nil {
 		info := fi.Pkg.TypesInfo
@@ -833,6 +874,14 @@ func checkC09(c *Ctx) {
 		}
 		c.Check(sizeOK && nameOK, "ERRFLOW", "tree.Consensus/taxa-mismatch", rs.Pos(), "different size or unknown name returns an error", fmt.Sprintf("taxon check of later trees incomplete (size compared and refused: %v, each name looked up and refused: %v)", sizeOK, nameOK)).Clause = "collections with differing taxa are rejected with an error"
 	}
+	c.Decides("ADJ-PAIRS: every counting loop of package tree that reads two neighbouring elements of a slice and is bounded by its length visits all adjacent pairs (the duplicate-name checks behind UpdateTipIndex, which is what rejects an input tree with a repeated taxon, included)")
+	nadj, _ := c.adjPairs("ADJ-PAIRS", c.AllFuncs("tree"), "trees on differing taxa are rejected")
+	c.Extra["adjacent_pair_loops"] = nadj
+	if fx := c.Fixture(); fx != nil {
+		sub := c.subCtx(fx)
+		nl, nv := sub.adjPairs("ADJ-PAIRS", sub.AllFuncs(), "")
+		c.Control("ADJ-PAIRS", nl == 2 && nv == 1, "fixture.C09AdjPairs stops one pair short (and fixture.C09AdjPairsOK, which visits every pair, is accepted)")
+	}
 	c.Decides("FULL-LOOP: the loop of Consensus that adds the kept splits (and writes the mean length of tip branches, which come in the same list) visits every entry: no early exit once the tree is resolved")
 	if fi := c.Func("tree", "", "Consensus"); fi != nil {
 		c.fullLoop("FULL-LOOP", "tree.Consensus/assembly", fi, func(info *types.Info, call *ast.CallExpr) bool {
@@ -861,6 +910,9 @@ func checkC10(c *Ctx) {
 	// the split look-up these results rest on is orientation/rooting independent (shared with C04)
 	c.Decides("SYM (shared with C04): the hash under which a split is looked up is invariant under exchanging the two sides of the branch, so the result does not depend on where either tree is rooted")
 	c.edgeHashSym()
+	c.Decides("REORIENT-REINDEX (shared with C04): every exported method of Tree that re-orients branches also recomputes bit sets, per-side hash codes / tip counts and depths: the transfer distance picks the light side of a reference branch from these counts, whatever the rooting")
+	c.reorientReindex("REORIENT-REINDEX", "transfer supports do not depend on where the reference tree is rooted")
+	c.Floor("REORIENT-REINDEX", 3)
 	c.Decides("ERRFLOW: in FBP (workers) and TBE the errors of Trees.Err, ReinitIndexes and of the taxon-set check CompareTipIndexes reach the error the function returns on every path where they are non-nil (bootstrap trees on other taxa are rejected)")
 	c.Decides("LF: Felsenstein support = found-count / number of accepted trees; transfer support = 1 − (Σdist/n)/(depth−1) with Σdist accumulated as +0 when the split is present and +minimum transfer distance otherwise; PATH/GF: supports are written on reference branches only when the branch is not a tip branch")
 	c.DoesNotDecide("the transfer-distance recursion (MinTransferDist), ranges [0,1], TBE >= FBP, independence from tree order / rooting")
@@ -1040,6 +1092,37 @@ func (c *Ctx) normalizeTransfer() {
 // only for branches of depth > 1.
 func (c *Ctx) tbeAccumulation(fi *FuncInfo) {
 	info := fi.Pkg.TypesInfo
+	// the accumulator itself: IncrementSupport adds its argument on every path (the first call, which
+	// finds the support absent, counts too)
+	if inc := c.Func("tree", "Edge", "IncrementSupport"); inc != nil {
+		iinfo := inc.Pkg.TypesInfo
+		r, p := recvObj(iinfo, inc.Decl), paramObj(iinfo, inc.Decl, 0)
+		okInc := false
+		var at token.Pos = inc.Decl.Pos()
+		for _, st := range c.fieldStores(iinfo, inc.Decl.Body, nil) {
+			if st.field.Name() != "support" || identObj(iinfo, st.recvE) != r || st.rhs == nil {
+				continue
+			}
+			adds := false
+			switch st.op {
+			case token.ADD_ASSIGN:
+				adds = identObj(iinfo, st.rhs) == p
+			case token.ASSIGN:
+				if be, ok := unparen(st.rhs).(*ast.BinaryExpr); ok && be.Op == token.ADD {
+					l, rr := c.canon(iinfo, be.X, nil), c.canon(iinfo, be.Y, nil)
+					adds = (identObj(iinfo, be.X) == p && rr == r.Name()+".support") || (identObj(iinfo, be.Y) == p && l == r.Name()+".support")
+				}
+			}
+			if !adds {
+				continue
+			}
+			at = st.pos
+			if conds, okc := c.pathConds(iinfo, inc.Decl.Body, st.node, false); okc && len(conds) == 0 {
+				okInc = true
+			}
+		}
+		c.Check(okInc, "LF", "tree.Edge.IncrementSupport/adds-always", at, "support += argument on every path", "IncrementSupport does not add its argument on every path (the call that finds the support absent only initialises it): the first bootstrap tree's distance is dropped while the divisor still counts that tree").Clause = "transfer support = 1 - (mean transfer distance)/(depth-1)"
+	}
 	var incs []*ast.CallExpr
 	for _, call := range callsIn(fi.Decl.Body, true) {
 		if g := calleeOf(info, call); g != nil && isRepoFunc(g, "tree", "Edge", "IncrementSupport") {
